@@ -116,3 +116,16 @@ Theorem C06_glue_rfa_exp_adaptive : forall pw gpow x y n alpha beta a, (2 <= n)%
 Proof. exact glue_rfa_exp_adaptive. Qed.
 Print Assumptions C06_glue_rfa_exp_adaptive.
 Close Scope string_scope.
+
+(** ---- LinearAdaptiveRFA.get_adaptive_transition_points, REGENERATED as a glue term (Gen/RfaGlue.v), computes the model's adaptive_windows ---- *)
+From TW Require Import Model.GlueLeaves3 Gen.RfaGlue Proofs.GlueAdaptivePointsProofs.
+Open Scope string_scope.
+Theorem C06_glue_adaptive_points : forall gpow lx ly n a, (0 <= a)%Z ->
+  let w := adaptive_windows gpow (ext_of lx ly n) a in
+  exists gammas,
+  call_meth adaptive_callf ivl_methf no_apply (smooth_powf gpow) rfa_methods "LinearAdaptiveRFA.get_adaptive_transition_points" []
+    [("x", ivl lx n); ("y", ivl ly n); ("a", VInt a); ("adaptive_smooth", VOpaque "adaptive_smooth")]
+  = OReturn (VTup [VTup (map VInt (fst w)); VTup (map VInt (snd w)); VTup gammas]).
+Proof. exact glue_adaptive_points. Qed.
+Print Assumptions C06_glue_adaptive_points.
+Close Scope string_scope.
